@@ -27,6 +27,26 @@ CHECKS = {
         design_ref='DESIGN.md section 6 C08', note=TB),
 }
 
+CHECKS['C05'] = dict(
+    technique='TLA+ specs BufferOp and FifoStream: TLC deadlock-freedom, safety and liveness under fairness; as-found design '
+              'variants must deadlock in the model; TLC trace validation of real Buffer/AsyncBuffer/fifo_stream executions '
+              'under a deterministic scheduler where a hang is a detected deadlock',
+    text='TLC checks on spec/BufferOp.tla and spec/FifoStream.tla that no stop position, failure position or schedule leads '
+         'to a state without successor other than "iterator closed, helpers exited", that the first failure is delivered once '
+         'after all earlier outputs, and (FairSpec) that every iteration ends.  The real code is run under detsched for every '
+         'stop/failure position of a scenario grid x many schedules; a hang is reported exactly (no runnable thread, no timer), '
+         'and every completed execution is validated by TLC against the trace specs (NoLeak, EndOK on each state).',
+    design_ref='DESIGN.md section 6 C05', note=TB)
+CHECKS['C16'] = dict(
+    technique='TLA+ spec FifoStream with Mode=async checked by TLC against the same invariants as Mode=sync; TLC trace '
+              'validation of real async_fifo_stream / AsyncParmapperAsync executions on a virtual-time event loop, plus '
+              'output comparison with fifo_stream on identical scenarios',
+    text='Both flavours must refine the same abstract ordered map: TLC checks OutIsPrefix/EndOK/CalledOnce for Mode=async on '
+         'the same grid as C01, and the as-found async feeder (stale/unbound task for a rejected element) must violate them in '
+         'the model.  The real async functions run on an asyncio loop inside a detsched thread with virtual per-call durations '
+         '(all completion orders), traces are validated by TLC, and outputs are compared with the sync flavour run on the same scenario.',
+    design_ref='DESIGN.md section 6 C16', note=TB + '; asyncio pure-Python Future/Task are used instead of the C accelerators')
+
 ALL = ['C%02d' % i for i in range(1, 21)]
 
 
